@@ -1,9 +1,11 @@
 (* C13, object-header level: Resize rewrites the stored object header in place (Model/Resize.v).
    The invariant [stored]: the file holds at [addr] a version 2 object header as the library's writer produces it,
    with arbitrary messages [before] (none of type dataspace) and [after] the dataspace message of extents [dims]
-   and maxima [maxd]; [pre] / [suf] are the bytes of the file in front of / behind the header. *)
+   and maxima [maxd]; [pre] / [suf] are the bytes of the file in front of / behind the header.  [room]: the file goes
+   on behind the header or the last message has two bytes of data (the reader fetches 6 bytes per message header);
+   the header may be the very end of the file, as it is for a dataset created last in a session. *)
 From HV Require Import Base.Prelude Base.Outcome Base.Bytes Model.CodecMsg Model.CodecOhdr Model.Resize.
-From HV Require Import Proofs.CodecMsg Proofs.CodecOhdr Proofs.ResizeBase.
+From HV Require Import Proofs.CodecMsg Proofs.CodecOhdr Proofs.ResizeBase Proofs.ResizeOhdr.
 
 Record stored (file : bytes) (addr flags : N) (before after : list hmsg) (dims maxd : list N)
               (pre suf : bytes) : Prop := {
@@ -12,7 +14,7 @@ Record stored (file : bytes) (addr flags : N) (before after : list hmsg) (dims m
   sd_wf : wf_ohdr_v2 (hdr_of flags before dims maxd after) = true;
   sd_ds : wf_dataspace {| ds_dims := dims; ds_maxdims := maxd |} = true;
   sd_nods : no_ds before = true;
-  sd_suf : 1 <= blen suf;
+  sd_suf : room (before ++ ds_msg dims maxd :: after) suf = true;
   sd_small : blen pre + size_ohdr_v2 (hdr_of flags before dims maxd after) + 8 < 9223372036854775808 }.
 
 (* ---------------------------------------------------------------- headers that differ in the extents only *)
@@ -48,6 +50,15 @@ Proof.
   reflexivity.
 Qed.
 
+Lemma room_same before : forall m m' after suf, blen (hm_data m') = blen (hm_data m) ->
+  room (before ++ m' :: after) suf = room (before ++ m :: after) suf.
+Proof.
+  induction before as [|b r IH]; intros m m' after suf Hl.
+  - cbn [app room]. destruct after; [rewrite Hl; reflexivity | reflexivity].
+  - assert (E : forall l, l <> [] -> room (b :: l) suf = room l suf) by (intros [|x l] H; [congruence|reflexivity]).
+    cbn [app]. rewrite !E by (intro H; apply app_eq_nil in H; destruct H; discriminate). apply IH; exact Hl.
+Qed.
+
 Lemma size_same flags before dims new maxd after : length new = length dims ->
   size_ohdr_v2 (hdr_of flags before new maxd after) = size_ohdr_v2 (hdr_of flags before dims maxd after).
 Proof. intros HL. unfold size_ohdr_v2. rewrite (chunk_same flags before dims new maxd after HL). reflexivity. Qed.
@@ -60,6 +71,7 @@ Proof.
   intros [Hfile Haddr Hwf Hds Hno Hsuf Hsmall] HL Hu. constructor; auto.
   - eapply wf_hdr_same; eauto.
   - eapply wf_dataspace_same; eauto.
+  - rewrite <- Hsuf. apply room_same. unfold ds_msg. cbn [hm_data]. apply blen_ds_same. exact HL.
   - rewrite (size_same flags before dims new maxd after HL). exact Hsmall.
 Qed.
 
@@ -69,7 +81,8 @@ Lemma stored_dec be file addr flags before after dims maxd pre suf :
   stored file addr flags before after dims maxd pre suf ->
   dec_ohdr be file addr = Ok (proj_ohdr_v2 be (hdr_of flags before dims maxd after) addr).
 Proof.
-  intros [Hfile Haddr Hwf Hds Hno Hsuf Hsmall]. subst file addr. apply ohdr_v2_roundtrip; auto.
+  intros [Hfile Haddr Hwf Hds Hno Hsuf Hsmall]. subst file addr. apply ohdr_v2_roundtrip_room; auto.
+  unfold hdr_of. cbn [oh_msgs]. intro H. apply app_eq_nil in H. destruct H; discriminate.
 Qed.
 
 Lemma stored_shape_of be file addr flags before after dims maxd pre suf :
